@@ -1,6 +1,9 @@
 package jet
 
-import "reflect"
+import (
+	"bytes"
+	"reflect"
+)
 
 // ---- C09: include renders in place with the caller's variables; exec returns a value ----
 
@@ -504,4 +507,93 @@ func H_C09_ctxForms() {
 	}
 	vfNote(out)
 	vfAssert(out == want+"|DATA", "the name is evaluated in the caller's context; the target gets exactly the given context; the caller's '.' is back afterwards")
+}
+
+// H_C09_recursiveInclude: a template that includes itself with a base case (a tree
+// renderer), and a partial that is included by a template it imports blocks from, in
+// production and development mode and when the top template comes from Set.Parse: include
+// is run-time recursion, not a reference cycle - it renders.
+//
+//gosym:reach rendered
+func H_C09_recursiveInclude() {
+	dev := ndBool("dev")
+	viaParse := ndBool("viaParse")
+	sc := ndChoice("scenario", 2)
+	type node struct {
+		Name string
+		Kids []*node
+	}
+	tree := &node{"a", []*node{{"b", []*node{{"c", nil}}}, {"d", nil}}}
+	l := NewInMemLoader()
+	l.Set("/views/tree.jet", `({{ .Name }}{{ range .Kids }}{{ include "tree.jet" . }}{{ end }})`)
+	l.Set("/lib.jet", `{{ import "/row.jet" }}{{ block table() }}[{{ include "/row.jet" }}]{{ end }}`)
+	l.Set("/row.jet", `{{ block cell() }}c{{ end }}r`)
+	page := `{{ include "/views/tree.jet" . }}`
+	want := "(a(b(c))(d))"
+	if sc == 1 {
+		page, want = `{{ import "/lib.jet" }}{{ yield table() }}`, "[cr]"
+	}
+	l.Set("/page.jet", page)
+	set := NewSet(l, DevelopmentMode(dev), WithSafeWriter(nil))
+	var t *Template
+	var err error
+	if viaParse {
+		t, err = set.Parse("/page.jet", page)
+	} else {
+		t, err = set.GetTemplate("/page.jet")
+	}
+	vfAssert(err == nil, "loads")
+	if err != nil {
+		return
+	}
+	var buf bytes.Buffer
+	err = t.Execute(&buf, nil, tree)
+	vfReach("rendered")
+	vfAssert(err == nil, "a recursive include with a base case renders")
+	vfNote(buf.String())
+	vfAssert(buf.String() == want, "each include renders the named template with the given context")
+}
+
+// H_C09_failedIncludeInTry: an include that fails at run time below a range (which has
+// rebound '.'), a declaration and a block table of its own, inside a try with or without a
+// catch clause: afterwards the includer's '.', variables and blocks are its own again.
+//
+//gosym:reach rendered
+func H_C09_failedIncludeInTry() {
+	withCatch := ndBool("catch")
+	inRange := ndBool("inRange")
+	catch := ""
+	if withCatch {
+		catch = `{{ catch }}c`
+	}
+	inc := `{{ try }}{{ include "/bad.jet" }}{{ end }}`
+	if withCatch {
+		inc = `{{ try }}{{ include "/bad.jet" }}` + catch + `{{ end }}`
+	}
+	body := inc + `[{{ . }}|{{ isset(leak) }}|{{ yield greet() }}]`
+	if inRange {
+		body = `{{ range one }}` + body + `{{ end }}`
+	}
+	set := hxSet([]Option{WithSafeWriter(nil)},
+		"/m.jet", `{{ block greet() }}hello{{ end }}|`+body,
+		"/bad.jet", `{{ block greet() }}HIJACKED{{ end }}{{ range items }}{{ leak := 1 }}{{ fail() }}{{ end }}`,
+	)
+	vars := make(VarMap)
+	vars.Set("items", []string{"item0"})
+	vars.Set("one", []string{"e"})
+	vars.SetFunc("fail", hxFail)
+	out, err := hxExec(set, "/m.jet", vars, "outer")
+	vfReach("rendered")
+	vfAssert(err == nil, "the failure stays inside the try")
+	dot := "outer"
+	if inRange {
+		dot = "e"
+	}
+	want := "hello|"
+	if withCatch {
+		want += "c"
+	}
+	want += "[" + dot + "|false|hello]"
+	vfNote(out)
+	vfAssert(out == want, "a failed include leaks no context, declaration or block back, with or without a catch clause")
 }
